@@ -184,6 +184,35 @@ def handle (toks : List String) : String :=
           match (toPairs rows).mapM (otherBasisToA12? A1 A2 B1 B2) with
           | some l => pure (showRats (flatPairs l))
           | none => pure (err "assert")
+      | "q2aopos" => done do
+          -- `pos=` together with `a1vect=`/`a2vect=` (Cartesian B1, B2)
+          let (A1, r) ← takeV3 xs
+          let (A2, r) ← takeV3 r
+          let (B1, r) ← takeV3 r
+          let (B2, r) ← takeV3 r
+          let (m, r) ← takeNat r
+          let (ps, _) ← takeV3s m r
+          match ps.mapM (fun p => (Query.pos p).toA12Other? A1 A2 B1 B2 0 0 0 0) with
+          | some l => pure (showRats (flatPairs l))
+          | none => pure (err "assert")
+      | "q2aoxy" => done do
+          -- `x=, y=` (no xvect) together with `a1vect=`/`a2vect=`: x axis along B1
+          let (A1, r) ← takeV3 xs
+          let (A2, r) ← takeV3 r
+          let (B1, r) ← takeV3 r
+          let (B2, r) ← takeV3 r
+          let (nn, r) ← take1 r
+          let (nx, r) ← take1 r
+          let (ny, r) ← take1 r
+          let (nz, r) ← take1 r
+          let (m, r) ← takeNat r
+          let (rows, _) ← takeN (2 * m) r
+          match (toPairs rows).mapM (fun q => xyToPosApi A1 A2 nn nx ny nz (some B1) q) with
+          | none => pure (err "value")
+          | some _ =>
+            match (toPairs rows).mapM (fun q => (Query.xy q none).toA12Other? A1 A2 B1 B2 nn nx ny nz) with
+            | some l => pure (showRats (flatPairs l))
+            | none => pure (err "assert")
       | "frame" => done do
           let (M, r) ← takeM3 xs
           let (Kv, r) ← takeM3 r
@@ -477,6 +506,8 @@ def gstep (g : GObj Q) (op : String) (rest : List String) : String :=
   | "gp2a" => handle ("p2a" :: A ++ rest)
   | "gq2apos" => handle ("q2apos" :: A ++ rest)
   | "gq2avec" => handle ("q2avec" :: A ++ rest)
+  | "gq2aopos" => handle ("q2aopos" :: A ++ rest)
+  | "gq2aoxy" => handle ("q2aoxy" :: A ++ rest)
   | "gp2xy" | "gxy2p" | "gq2axy" =>
       let base := (op.drop 1).toString
       match rest with
